@@ -1,5 +1,7 @@
 import MpireModel.Model.Async
 import MpireModel.Proofs.Async
+import MpireModel.Model.ApplyProto
+import MpireModel.Proofs.ApplyProto
 /-!
 # C09 — apply/apply_async: correct value, single callback, failures isolated
 
@@ -44,5 +46,64 @@ theorem job_outcome (c : Cache) (hfresh : ∀ r ∈ c, r.isSet = false ∧ r.out
 
 example : ((applySets [fresh true true, fresh true true] [(1, .err 7), (0, .ok 3), (1, .ok 9)]).map (·.cbLog)) =
     [[(true, .ok 3)], [(false, .err 7)]] := by decide +kernel
+
+/-! ## The pool as a whole (Model/ApplyProto.lean)
+
+`s` is ANY state reachable from a fresh pool with `n` workers by ANY finite sequence of: submissions to any worker, workers
+taking and finishing tasks (returning or raising), the results handler setting jobs, the timeout scan (interrupting a process
+worker, or only setting the job when the function cannot be interrupted / its result is already on its way), and workers being
+killed while they run a task.  The events of real pools are replayed through `step` by the C09 and C07 checks. -/
+section pool
+open Mpire.ApplyProto
+
+/-- Nothing is lost and nothing is duplicated: a submitted job is settled or still somewhere in the machinery, and it is in
+at most one place there. -/
+theorem apply_no_job_lost (n : Nat) (s : Sys) (h : Reachable n s) :
+    (∀ j ∈ s.submitted, isSettled s j = true ∨ j ∈ queued s ∨ j ∈ inHand s ∨ j ∈ inRq s) ∧
+    (queued s ++ inHand s ++ inRq s).Nodup :=
+  ⟨Mpire.Proofs.ApplyProto.no_loss n s h, Mpire.Proofs.ApplyProto.located_once n s h⟩
+
+/-- Every job is settled at most once (one outcome, hence one callback — `exactly_one_callback` above). -/
+theorem apply_settled_once (n : Nat) (s : Sys) (h : Reachable n s) : (s.settled.map (·.1)).Nodup :=
+  Mpire.Proofs.ApplyProto.settled_nodup n s h
+
+/-- "Every result becomes ready … once stop_and_join() returned": when nothing is in flight any more, the settled jobs are
+exactly the submitted jobs, each once. -/
+theorem apply_ready_after_join (n : Nat) (s : Sys) (h : Reachable n s) (hq : quiescent s = true) :
+    (∀ j ∈ s.submitted, isSettled s j = true) ∧ (s.settled.map (·.1)).Perm s.submitted :=
+  ⟨Mpire.Proofs.ApplyProto.quiescent_all_settled n s h hq, Mpire.Proofs.ApplyProto.quiescent_settled_perm n s h hq⟩
+
+/-- The first outcome of a job is final, whatever happens afterwards. -/
+theorem apply_first_outcome_final (s s' : Sys) (e : Ev) (j : Job) (o : Out) (hs : step s e = some s')
+    (ho : outcomeOf s j = some o) : outcomeOf s' j = some o :=
+  Mpire.Proofs.ApplyProto.outcome_stable s s' e j o hs ho
+
+/-- "An exception or timeout in one apply task never changes the outcome of any other task": an event that concerns another
+job (its submission, its run, its result, its timeout, the death of the worker running it) changes neither the outcome of job
+`j` nor where `j` is. -/
+theorem apply_failure_isolated (s s' : Sys) (e : Ev) (j : Job) (hs : step s e = some s') (hc : concerns s j e = false) :
+    outcomeOf s' j = outcomeOf s j ∧ (j ∈ queued s' ↔ j ∈ queued s) ∧ (j ∈ inHand s' ↔ j ∈ inHand s) ∧
+    (j ∈ inRq s' ↔ j ∈ inRq s) :=
+  Mpire.Proofs.ApplyProto.isolation s s' e j hs hc
+
+/-- "… and never stops the pool": while anything is in flight some worker or the results handler can move, and every such
+move brings the pool closer to quiescence (the measure strictly decreases; only `timeoutOnly` leaves it unchanged, and that
+happens at most once per job). -/
+theorem apply_never_stuck (n : Nat) (s : Sys) (h : Reachable n s) (hq : quiescent s = false) :
+    ∃ e s', step s e = some s' ∧ mu s' < mu s :=
+  Mpire.Proofs.ApplyProto.progress n s h hq
+
+theorem apply_moves_terminate (s s' : Sys) (e : Ev) (hs : step s e = some s')
+    (he : (∀ j k, e ≠ .submit j k) ∧ (∀ j, e ≠ .timeoutOnly j)) : mu s' < mu s :=
+  Mpire.Proofs.ApplyProto.mu_decreases s s' e hs he
+
+/-- a mixed history: job 1 returns, job 2 raises, job 3 times out in a process worker, job 4 times out in a thread worker
+and its late result is dropped, job 5's worker is killed -/
+example : (run (init 2) [.submit 1 0, .submit 2 1, .submit 3 0, .submit 4 1, .submit 5 0, .take 0, .take 1, .finish 0 true,
+    .finish 1 false, .handle, .handle, .take 0, .take 1, .timeoutProc 0, .timeoutOnly 4, .finish 1 true, .handle, .take 0,
+    .die 0]).map (fun s => (s.settled, quiescent s)) =
+    some ([(1, .ok), (2, .raised), (3, .timedOut), (4, .timedOut), (5, .died)], true) := by decide +kernel
+
+end pool
 
 end Mpire.C09
